@@ -187,4 +187,51 @@ def baseWF (b : Base) : Bool :=
 
 def fixedLen (b : Base) : Nat := (routeAdvertiseC.enc (b.adv 0 [])).length
 
+/-! ### withdrawals (`WithdrawLocalRoutes`, with fixes/C06-withdraw-chunking.patch) -/
+
+/-- `len(base.Encode())` of the route-less ROUTE_WITHDRAW -/
+def withdrawFixed (self : Bytes) : Nat := (routeWithdrawC.enc (self, 0, [], [self])).length
+
+def withdrawBudget (self : Bytes) : Nat := maxPayload - headroom - withdrawFixed self
+
+/-- payloads of the ROUTE_WITHDRAW frames for the local (CIDR) routes: one per group, group `i`
+    with sequence `seq0 + 1 + i` -/
+def withdrawLocal (self : Bytes) (seq0 : Nat) (cidrs : List Entry) : List Bytes :=
+  let rec go (sq : Nat) : List (List PRoute) → List Bytes
+    | [] => []
+    | g :: gs => routeWithdrawC.enc (self, sq, g, [self]) :: go (sq + 1) gs
+  go (seq0 + 1) (splitRoutes (withdrawBudget self) (cidrs.map toRoute))
+
+/-- pinned behaviour: one ROUTE_WITHDRAW carrying every route -/
+def withdrawUnsplit (self : Bytes) (seq0 : Nat) (cidrs : List Entry) : List Bytes :=
+  [routeWithdrawC.enc (self, seq0 + 1, cidrs.map toRoute, [self])]
+
+/-- `protocolRouteToIPNet` in `HandleRouteWithdraw`: the networks handed to `ProcessRouteWithdraw` -/
+def toIPNet (r : PRoute) : Option Entry :=
+  if r.1.2.isEmpty then none
+  else if r.1.1.1 = 1 then some (.cidr 1 r.1.1.2 (fitTo 4 r.1.2) r.2)
+  else if r.1.1.1 = 2 then some (.cidr 2 r.1.1.2 (fitTo 16 r.1.2) r.2)
+  else none
+
+def learnWithdraw (payload : Bytes) : Option (List Entry) :=
+  match decodeRouteWithdraw payload with
+  | none => none
+  | some w => some (w.2.2.1.filterMap toIPNet)
+
+/-- every network a neighbour removes, given the sent payloads; `none` if a frame was dropped or
+    did not decode -/
+def withdrawAll : List Bytes → Option (List Entry)
+  | [] => some []
+  | p :: ps =>
+    match deliver p with
+    | none => none
+    | some q =>
+      match learnWithdraw q, withdrawAll ps with
+      | some es, some rest => some (es ++ rest)
+      | _, _ => none
+
+def isCidr : Entry → Bool
+  | .cidr _ _ _ _ => true
+  | _ => false
+
 end MM.C06
